@@ -504,11 +504,11 @@ func run(r *eng.Runner) {
 	sortStrings(names)
 	gaps := []string{" ", "  "}
 	seps := []string{"", "x", "\n", "\xc3\xa9\n", "\r\n"}
-	prefixes := []string{"", "x", "\n", "\xc3\xa9", "xy\n\nz"}
+	prefixes := []string{"", "x", "\n", "\xc3\xa9", "xy\n\nz", "\xef\xbb\xbf"}
 	if r.Quick() {
 		gaps = []string{" "}
 		seps = []string{"", "\n", "\xc3\xa9\n"}
-		prefixes = []string{"", "\xc3\xa9", "xy\n\nz"}
+		prefixes = []string{"", "\xc3\xa9", "xy\n\nz", "\xef\xbb\xbf"} // the last one: a byte order mark in front of the file
 	}
 	r.Group("error-positions", "c16.err", fmt.Sprintf("%d corpus programs (every tag) x every single-token edit (delete, duplicate, replace by each of %d tokens) x %d gaps x %d separators x %d prefixes; compile and execution errors", len(names), len(replacements), len(gaps), len(seps), len(prefixes)))
 	for _, name := range names {
@@ -576,7 +576,7 @@ func run(r *eng.Runner) {
 
 	// errors inside included / extended / imported files
 	r.Group("error-in-subtemplate", "c16.err", "a broken or failing sub-template reached by include (static, lazy), extends, import, ssi: the error must name the sub-template and point into its source")
-	broken := []string{"ab\n{% block a %}1{% endblock %}\n{% block a %}2{% endblock %}", "{% block a %}{% block a %}{% endblock %}{% endblock %}", "\n\n{% macro mac() export %}{% endmacro %}{% macro mac() export %}{% endmacro %}",
+	broken := []string{"\xef\xbb\xbf{% if %}", "\xef\xbb\xbfab {{ fail() }}", "\xef\xbb\xbf\n{% for %}", "ab\n{% block a %}1{% endblock %}\n{% block a %}2{% endblock %}", "{% block a %}{% block a %}{% endblock %}{% endblock %}", "\n\n{% macro mac() export %}{% endmacro %}{% macro mac() export %}{% endmacro %}",
 		"{% if a %}x{% elif %}y{% endif %}", "ab\n{% if a %}x{% else 1 %}y{% endif %}", "{% for i in l %}x{% empty 1 %}{% endfor %}", "\n{% ifequal a 1 %}{% else x %}{% endifequal %}", "{% for i in l %}{% endfor 1 %}", "{% block a %}{% endblock b %}", "{% with %}x{% endwith %}",
 		"ok{{ }", "x\n{% if %}", "{% nosuchtag %}", "é{{ 1|nosuchfilter }}", "a\n\n{{ fail() }}", "{{ a/0 }}", "{% for %}", "{{ \"unterminated }}"}
 	for _, bsrc := range broken {
